@@ -483,6 +483,7 @@ func tracesPhase(thorough bool) {
 		runTracesCase(fmt.Sprintf("t-clean-%d", i), t, -1, opts)
 	}
 	curOpts = "default"
+	dupKeyCases(thorough)
 	for k, c := range tclasses {
 		g := &G{r: rng.FromEnv(uint64(1810 + k)), allowArrays: true}
 		c.setup(g)
@@ -537,3 +538,79 @@ var (
 	prevT     Traces
 	havePrevT bool
 )
+
+// dupKeyCases: span, event and link attribute maps that hold one key SEVERAL times with different
+// values (legal in OTLP on the wire and in a pcommon.Map that came from an unmarshaler). Every
+// entry must arrive in the record, in both converter modes. Oracle: the harness's own (the
+// model replay is skipped: the order the converter's sort leaves equal keys in is not specified).
+func dupKeyCases(thorough bool) {
+	n := 80
+	if thorough {
+		n = 2000
+	}
+	g := &G{r: rng.FromEnv(1830), allowArrays: true}
+	r := g.r
+	dup := func(a Attrs) Attrs {
+		if len(a) == 0 {
+			a = append(a, KVp{K: "k", V: AV{K: KStr, S: "first"}})
+		}
+		for c := 1 + r.Intn(3); c > 0; c-- {
+			src := a[r.Intn(len(a))]
+			v := AV{K: KStr, S: fmt.Sprintf("dup-%d", r.Intn(1000))}
+			switch r.Intn(4) {
+			case 0:
+				v = AV{K: KInt, I: r.U64() % 100}
+			case 1:
+				v = AV{K: KEmpty}
+			}
+			at := r.Intn(len(a) + 1)
+			a = append(a[:at:at], append(Attrs{{K: src.K, V: v}}, a[at:]...)...)
+		}
+		return a
+	}
+	for i := 0; i < n; i++ {
+		t := g.traces()
+		done := 0
+		for ri := range t.RSs {
+			for si := range t.RSs[ri].Scopes {
+				sps := t.RSs[ri].Scopes[si].Spans
+				for k := range sps {
+					if r.Chance(1, 2) {
+						sps[k].Attrs = dup(sps[k].Attrs)
+						done++
+					}
+					for e := range sps[k].Events {
+						if r.Chance(1, 3) {
+							sps[k].Events[e].Attrs = dup(sps[k].Events[e].Attrs)
+							done++
+						}
+					}
+					for l := range sps[k].Links {
+						if r.Chance(1, 3) {
+							sps[k].Links[l].Attrs = dup(sps[k].Links[l].Attrs)
+							done++
+						}
+					}
+				}
+			}
+		}
+		if done == 0 {
+			continue
+		}
+		if !jsonSafeTraces(t) {
+			stats["t-dupkey-skipped-not-json-safe"]++
+			continue
+		}
+		name := fmt.Sprintf("t-dupkey-%d", i)
+		note("case %s", name)
+		stats["t-dupkey-cases"]++
+		stats["t-dupkey-maps"] += done
+		note("nontrivial %x", hash64(EncodeTraces(t)))
+		vs := evalTraces(t, pkg.WriterOptions{})
+		for m, v := range vs {
+			if !v.ok {
+				propFail("C18", "dupkey-"+tmodes[m].name+"-"+v.field, fmt.Sprintf("attribute maps holding a key more than once (%s): %s; input: %s", tmodes[m].name, v.desc, clip(EncodeTraces(t), 3000)))
+			}
+		}
+	}
+}
